@@ -152,7 +152,7 @@ def format_term(bv, t):
     """If t is `format!(..)`/`format_args!` (fmt::format(Arguments::new(template, &[args]))) return
     (format string, [(kind, arg term)]) else None."""
     x = t
-    while x[0] in ("ref", "deref") or (x[0] == "call" and lib.norm(x[1]) in ("std::hint::must_use", "std::fmt::format", "alloc::fmt::format") and x[2]):
+    while x[0] in ("ref", "deref") or (x[0] == "call" and (lib.norm(x[1]) in ("std::hint::must_use", "std::fmt::format", "alloc::fmt::format") or lib.norm(x[1]) in TRANSPARENT) and x[2]):
         x = x[1] if x[0] in ("ref", "deref") else x[2][0]
     if not (x[0] == "call" and lib.norm(x[1]).endswith("fmt::Arguments::<'a>::new") and len(x[2]) == 2):
         if x[0] == "call" and lib.norm(x[1]).endswith("fmt::Arguments::<'a>::from_str") and x[2]:
